@@ -13,7 +13,7 @@
    Known finding F4: a mismatched STRING array element is reported at the line of the token after it. *)
 From Coq Require Import List ZArith Bool.
 Import ListNotations.
-From LC Require Import Base Tree Fp Lookup Api ScanAction Tokens Lexer Parser GrammarFacts Reader.
+From LC Require Import Base Tree Fp Lookup Api ScanAction Tokens Lexer Parser GrammarFacts Reader Writer WriterFacts LexWrite ParseWrite.
 From LC.gen Require Import Consts.
 Local Open Scope Z_scope.
 
@@ -59,6 +59,28 @@ Theorem C02_messages :
   perr_text PErrSyntax = ERR_SYNTAX /\ perr_text PErrDup = ERR_DUPLICATE_SETTING /\
   perr_text PErrMismatch = ERR_ARRAY_ELEM_TYPE.
 Proof. repeat split. Qed.
+
+
+(* ---- the tree a text denotes, for texts in the writer's canonical form (from the C01 development) ----
+   Every tree with the shape the API maintains has a canonical token stream (that of config_write); the parser
+   accepts it - into an element position of a list or array, or as the value of the member just named - and
+   builds exactly that tree (up to positions; booleans, NULL strings and integer formats normalised), whatever
+   follows, with the fuel p_config provides.  Together with C02_sound this gives, for canonical streams, both
+   directions and the denoted tree; for arbitrary derivations the other direction is the bounded-exhaustive
+   correspondence of the check. *)
+Theorem C02_canonical_accepted : forall fmt_double atof c overrides v,
+  writable fmt_double atof c v -> pstruct v -> val_ok fmt_double atof c overrides v.
+Proof. exact val_ok_all. Qed.
+Print Assumptions C02_canonical_accepted.
+
+Theorem C02_canonical_configuration : forall fmt_double atof c overrides n kids f h l fi root0 toks,
+  writable fmt_double atof c (Setting n PGroup kids f h l fi) -> pstruct (Setting n PGroup kids f h l fi) ->
+  map lt_tok toks = ptk fmt_double atof c (pieces c (Setting n PGroup kids f h l fi) 0) ++ [TkEOF] ->
+  s_pl root0 = PGroup -> s_kids root0 = [] ->
+  exists s', p_config overrides (mkP root0 toks false O 0 None) = POk s' /\
+             obs (p_root s') = ON (s_name root0) PGroup (s_fmt root0) (map (fun m => nobs fmt_double atof c (s_name m) m) kids).
+Proof. exact parse_written. Qed.
+Print Assumptions C02_canonical_configuration.
 
 (* non-vacuity *)
 Definition mk (t : token) : ltoken := mkLT t 1 None None [] [] [].
